@@ -52,6 +52,9 @@ def demo_cmd(sdir):
 def confirm(name, suite):
     sid, var = name.split("/")
     src = os.path.join("/tmp/seed", sid, "out", var)
+    if var in ("D", "E", "F"):
+        # second round: /tmp/seed2/<ID>/out/{A,B,C} are kept as variants D, E, F
+        src = os.path.join("/tmp/seed2", sid, "out", {"D": "A", "E": "B", "F": "C"}[var])
     sdir = os.path.join(VERIF, "seeded", sid, var)
     os.makedirs(sdir, exist_ok=True)
     for f in ("patch.diff", "demo_test.go", "demo_path.txt", "demo.txt", "meta.json"):
